@@ -88,6 +88,10 @@ pub enum RecvOp {
     Drop,
     /// hand the RecvStream over to the inline registry (C20)
     Park,
+    /// (H2Tasks) poll_data, BLOCKING: the task parks in the call until it returns Ready
+    PollDataWait,
+    /// (H2Tasks) poll_trailers, BLOCKING
+    PollTrailers,
 }
 
 /// C20: a handle operation executed INSIDE a transport callback of endpoint `ep`'s connection task (h2 holds none of
@@ -169,6 +173,9 @@ pub struct ReqProg {
     pub read: ReadPol,
     /// start only at the k-th quiescence
     pub start_q: Option<usize>,
+    /// (H2Tasks) after send_request the SendRequest clone (with its `pending` stream) lives on in a task `cy<tag>` of its own,
+    /// which calls poll_ready at the k-th quiescence and parks in it until Ready
+    pub ready_after: Option<usize>,
 }
 
 #[derive(Serialize, Deserialize, Clone, Debug, Default)]
